@@ -25,15 +25,19 @@ from hirlib import AnchorMissing, Crate  # noqa: E402
 class Ctx:
     """Lazy access to the facts of the current tree."""
 
-    def __init__(self, tier, repo=None):
+    def __init__(self, tier, repo=None, config="default"):
         self.tier = tier
         self.repo = repo
+        self.config = config
         self._crates = {}
         self._nbt = None
         self.configs_used = set()
         self.cache_hits = {}
 
-    def crate(self, name="numbat-lib", config="default"):
+    def crate(self, name="numbat-lib", config=None):
+        config = config or self.config
+        if name == "numbat-bin":
+            config = "default"  # the CLI crate is only built in the default configuration
         key = (name, config)
         if key not in self._crates:
             doc = facts.load(name, config, self.repo)
@@ -106,6 +110,40 @@ def run_property(pid, tier, seed):
             o = RuleOut("SELFTEST")
             o.error(msg)
             outs.append(o)
+
+    extra_cfg = None
+    if tier == "thorough":
+        # cfg twins: the same rules over the --no-default-features build of the library (plotting and
+        # exchange-rate fetching compiled out, their `#[cfg(not(feature))]` twins compiled in)
+        extra_cfg = {"config": "nodefault", "rules": 0, "instances": 0, "new_violations": 0}
+        ctx2 = Ctx(tier, config="nodefault")
+        seen_keys = {f.key for o in outs for f in o.findings}
+        for rule_name, fn in spec["rules"]:
+            if rule_name.endswith(".control"):
+                continue
+            o2 = RuleOut(rule_name + "@nodefault")
+            try:
+                res = fn(ctx2)
+                if isinstance(res, RuleOut):
+                    res = [res]
+                extra_cfg["rules"] += 1
+                for r in res:
+                    extra_cfg["instances"] += len(r.findings)
+                    for f in r.findings:
+                        if f.verdict == "violation" and f.key not in seen_keys:
+                            o2.findings.append(f)
+                            extra_cfg["new_violations"] += 1
+                    for msg in r.errors:
+                        o2.error("[nodefault] " + msg)
+                    for (name, actual, minimum) in r.floors:
+                        if actual < minimum:
+                            o2.error("[nodefault] floor `%s`: %s < %s" % (name, actual, minimum))
+            except AnchorMissing as e:
+                o2.error("[nodefault] anchor missing: %s" % e)
+            except Exception as e:
+                o2.error("[nodefault] rule crashed: %s" % e)
+            if o2.findings or o2.errors:
+                outs.append(o2)
 
     known = [k for k in load_known() if k["property"] == pid]
     known_keys = {k["key"]: k for k in known if k.get("status") == "known"}
@@ -209,7 +247,9 @@ def run_property(pid, tier, seed):
         coverage["seeded_fired"] = selftest["fired"]
         coverage["seeded_skipped"] = selftest["skipped"]
         coverage["seeded_detail"] = selftest["detail"]
-        coverage["extra_configs"] = selftest.get("extra_configs", [])
+        coverage["benign_variants"] = selftest.get("benign_variants", 0)
+        coverage["benign_silent"] = selftest.get("benign_silent", 0)
+        coverage["extra_configs"] = [extra_cfg] if extra_cfg else []
     if lib is not None:
         coverage["functions_analysed"] = len(lib.doc["hir"])
         coverage["mir_bodies"] = len(lib.doc["mir"])
